@@ -2,6 +2,8 @@
 // Protocol: DESIGN.md Appendix C. Strings are hex of UTF-8 bytes.
 mod core;
 mod handles;
+mod memext;
+mod memhist;
 mod laws;
 mod pure;
 use std::io::{BufRead, BufWriter, Write};
@@ -42,7 +44,7 @@ fn main() {
             continue;
         }
         let fields: Vec<&str> = line.split('\t').collect();
-        let res = std::panic::catch_unwind(|| pure::dispatch(&fields).or_else(|| laws::dispatch(&fields)).or_else(|| core::dispatch(&fields)).or_else(|| handles::dispatch(&fields)));
+        let res = std::panic::catch_unwind(|| pure::dispatch(&fields).or_else(|| laws::dispatch(&fields)).or_else(|| core::dispatch(&fields)).or_else(|| handles::dispatch(&fields)).or_else(|| if fields[0] == "hist" { Some(memhist::run_hist(fields[1], &fields[3..])) } else { None }));
         match res {
             Ok(Some(r)) => writeln!(out, "{}", r).unwrap(),
             Ok(None) => writeln!(out, "UNKNOWN {}", fields[0]).unwrap(),
